@@ -204,7 +204,7 @@ import c02  # noqa: E402
 
 @M.rule("C04-R5", "the date is interpreted in decoded form on the query carrier too (shared with C02-R1)")
 def r5(ctx):
-    for r in c02.r1(ctx):
+    for r in list(c02.r1(ctx)) + list(c02.r1h(ctx)):
         if "timestamp" in r.key or r.status != "PASS":
             r.rule = "C04-R5"
             yield r
